@@ -22,8 +22,9 @@
     model takes a write as one step):
     - a writer is in the middle of at most one operation (a batch is [&mut]), and does not
       submit its batch in the middle ([omid] has at most one entry per batch);
-    - two writers are not in the middle of operations on the same key at the same time
-      ([QStage] needs a key without an entry in [omid]);
+    - two writers are not in the middle of operations on the same element of the same key at the
+      same time ([QStage] needs a (key, element) without an entry in [omid]; operations on
+      different elements of one key may overlap);
     - an answer is only asked of a [get] that does not overlap a write to its key:
       [QSeq (SGet k)] (the whole [get], uninterrupted: a hit, or the complete miss path) needs
       a key without an entry in [omid].  The loaders' own answers (they overlap whatever
@@ -31,7 +32,8 @@
       the cache is.
     A write is issued ([sspec], [sordered]) where it is staged.
 
-    [guarded = false] is the code before the repair (the install only asks for a vacant slot). *)
+    [guarded = false] is the code before the repair (the install only asks for a vacant slot).
+    [overlap = true] drops the second assumption (see [overlap_witness]). *)
 From QV Require Import Common.Prelude Cache.Wide Cache.SetLog Cache.SetCache Cache.FillGuard.
 Open Scope N_scope.
 
@@ -82,12 +84,15 @@ Definition sstage (s : sst) (b : N) (k : key) (x : N) (i : bool) : option sst :=
 
 Definition mid_of_batch (b : N) (l : list midop) : option midop := find (fun m => m_batch m =? b) l.
 Definition mid_on_key (k : key) (l : list midop) : bool := existsb (fun m => m_key m =? k) l.
+Definition mid_on_elem (k : key) (x : N) (l : list midop) : bool :=
+  existsb (fun m => (m_key m =? k) && (m_elem m =? x)) l.
 Definition remove_mid (b : N) (l : list midop) : list midop := filter (fun m => negb (m_batch m =? b)) l.
 
 Section GS.
 Variable thr : N.
 Variable grp : key -> N.
 Variable guarded : bool.
+Variable overlap : bool.        (* true: writers may be in the middle of operations on one element at the same time *)
 
 (** [apply_op], step 2 and 3: what [swrite] does to the value cache *)
 Definition sapply (c : list (key * centry)) (k : key) (x : N) (i : bool) : list (key * centry) :=
@@ -117,7 +122,7 @@ Definition gsstep (s : gsst) (o : gsop) : option (gsst * option (list N)) :=
         Some (GSSt b' (ocount s) (omid s) (sloads s), out)
       else None
   | QStage b k x i =>
-      if mid_on_key k (omid s) then None
+      if negb overlap && mid_on_elem k x (omid s) then None
       else match mid_of_batch b (omid s) with
            | Some _ => None
            | None =>
@@ -227,3 +232,11 @@ Definition set_retry_history : list gsop :=
    QStage 0 0 5 false; QBump 0; QApply 0; QSeq (SGet 0);
    QSeq (SSub 0); QSeq SCommit; QSeq (SEvict 0); QSeq (SGet 0); QSeq (SNotify 0 0); QSeq (SEvict 0);
    QSeq (SEvictLog 0); QSeq (SGet 0)].
+
+(** Why writers must not overlap on one element (this has nothing to do with the miss path;
+    the sequential model excludes it by taking a write as one step): batch 0 inserts 5, batch 1
+    removes 5, the set is cached.  The insert is staged first and applied last: the cached set
+    keeps 5, the log and (after the commits, in epoch order) the store say "removed". *)
+Definition overlap_witness : list gsop :=
+  [QSeq SNew; QSeq SNew; QSeq (SGet 0); QStage 0 0 5 true; QStage 1 0 5 false; QBump 1; QApply 1;
+   QBump 0; QApply 0; QSeq (SGet 0); QSeq (SEvict 0); QSeq (SGet 0)].
